@@ -210,6 +210,39 @@ func progressGoal(s *simState, probe *int) (bool, string) {
 	return true, ""
 }
 
+// progressPossible: the nodes that can run are a majority of the voters of EVERY configuration one of them may be
+// operating on (latest and committed configuration of each node that takes part; what only the node staying away
+// knows - e.g. a configuration entry it appended and sent to nobody - binds nobody).  Also returns the newest
+// configuration held by a participating node.
+func progressPossible(s *simState, exclude int) (bool, Config) {
+	runnable := func(id uint64) bool {
+		n := s.w.nodes[id-1]
+		return int(id-1) != exclude && !n.dead && n.serveErr != ErrNodeRemoved
+	}
+	var newest Config
+	enough := true
+	for _, n := range s.w.nodes {
+		if n.r == nil || !runnable(n.id) {
+			continue
+		}
+		if n.r.configs.Latest.Index >= newest.Index {
+			newest = n.r.configs.Latest
+		}
+		for _, c := range []Config{n.r.configs.Latest, n.r.configs.Committed} {
+			alive := 0
+			for id, nd := range c.Nodes {
+				if nd.Voter && int(id) <= len(s.w.nodes) && runnable(id) {
+					alive++
+				}
+			}
+			if alive < c.quorum() {
+				enough = false
+			}
+		}
+	}
+	return enough, newest
+}
+
 func init() {
 	finalCheck = func(sc *simScenario, hist []simEvent) []simViolation {
 		if sc.Final == "adversary" {
@@ -230,31 +263,7 @@ func init() {
 			// precondition: the nodes that can run are a majority of the voters of EVERY configuration one of them
 			// may be operating on (latest and committed configuration of each node that takes part; what only the
 			// node staying away knows - e.g. a configuration entry it appended and sent to nobody - binds nobody)
-			runnable := func(id uint64) bool {
-				n := s.w.nodes[id-1]
-				return int(id-1) != exclude && !n.dead && n.serveErr != ErrNodeRemoved
-			}
-			var newest Config
-			enough := true
-			for _, n := range s.w.nodes {
-				if n.r == nil || !runnable(n.id) {
-					continue
-				}
-				if n.r.configs.Latest.Index >= newest.Index {
-					newest = n.r.configs.Latest
-				}
-				for _, c := range []Config{n.r.configs.Latest, n.r.configs.Committed} {
-					alive := 0
-					for id, nd := range c.Nodes {
-						if nd.Voter && int(id) <= len(s.w.nodes) && runnable(id) {
-							alive++
-						}
-					}
-					if alive < c.quorum() {
-						enough = false
-					}
-				}
-			}
+			enough, newest := progressPossible(s, exclude)
 			if exclude >= 0 {
 				if _, member := newest.Nodes[uint64(exclude+1)]; !member {
 					s.close()
@@ -268,6 +277,15 @@ func init() {
 			s.exclude = exclude
 			nv := len(s.w.led.viol)
 			_, problem := fairContinuation(s, 40, exclude)
+			if problem != "" {
+				// messages that were in flight have landed meanwhile: a configuration entry received during the
+				// continuation can leave the nodes that run without a majority of a configuration one of them holds
+				// now (e.g. the absent leader's uncommitted demotion reached the node it demotes) - no progress is
+				// owed then
+				if ok, _ := progressPossible(s, exclude); !ok {
+					problem = ""
+				}
+			}
 			if problem != "" {
 				key := "no-progress"
 				if len(problem) > 5 && problem[:5] == "lasso" {
